@@ -43,7 +43,7 @@ Notation complete_events := (@complete_events A ar).
 
 (* kind-independent description of MPSBackendImpl.timestep_complete *)
 Lemma timestep_complete_base_spec (s : mstate) (same : bool) (rest : list bool) (next : option A) :
-  3 <= m_N s -> m_tgt s = m_cur s -> o_same s = same :: rest ->
+  2 <= m_N s -> m_tgt s = m_cur s -> o_same s = same :: rest ->
   (m_tidx s + 1 < m_steps s -> exists t, next = Some t /\ nthZ (m_times s) (m_tidx s + 2) = Some t) ->
   (m_steps s <= m_tidx s + 1 -> next = None) ->
   exists s', timestep_complete_base ar s = Ok s' /\
